@@ -198,7 +198,36 @@ func runBigHistory(c *Ctx, ck colKind, ops []colOp, poolSize int) {
 
 // runHistory drives one collection and the reference model with the same operations and compares after each step.
 func runHistory(c *Ctx, ck colKind, start string, ops []colOp) {
-	pool := newPool()
+	runHistoryOn(c, ck, start, ops, newPool(), "")
+}
+
+// nearPool: seven items whose ids are distinct but close: the same path with no query, with one parameter, with that parameter
+// and one more, with a repeated parameter, on another port; the members carry links that have ids of their own in their lists
+func nearPool() []vocab.Item {
+	const base = "https://example.com/users/jdoe/outbox"
+	mention := func(n string) vocab.Item {
+		return &vocab.Link{ID: vocab.IRI("https://example.com/mentions/" + n), Type: vocab.MentionType, Href: vocab.IRI("https://example.com/users/" + n),
+			Name: vocab.NaturalLanguageValues{{Ref: vocab.NilLangRef, Value: vocab.Content("@" + n)}}}
+	}
+	note := &vocab.Object{ID: base + "?maxItems=2&after=3", Type: vocab.NoteType, Published: time.Date(2001, 1, 1, 0, 0, 0, 0, time.UTC),
+		Tag: vocab.ItemCollection{mention("ana"), vocab.IRI("https://example.com/tags/x")}}
+	actor := richActor(base, "two")
+	actor.Attachment = vocab.ItemCollection{&vocab.Link{ID: "https://example.com/links/1", Type: vocab.LinkType, Href: "https://example.com/files/1.png", MediaType: "image/png"}}
+	act := richActivity(base + "?page=1")
+	wrap := &vocab.Activity{ID: base + "?page=2", Type: vocab.CreateType, Actor: vocab.IRI("https://example.com/users/jdoe"),
+		Object: &vocab.Object{ID: "https://example.com/notes/wrapped", Type: vocab.NoteType, Tag: vocab.ItemCollection{mention("bob")}}, Published: time.Date(2031, 1, 1, 0, 0, 0, 0, time.UTC)}
+	return []vocab.Item{
+		vocab.IRI(base + "?maxItems=2"),
+		note,
+		actor,
+		act,
+		vocab.Object{ID: "https://example.com:8443/users/jdoe/outbox", Type: vocab.ArticleType, Published: time.Date(2005, 6, 1, 0, 0, 0, 0, time.UTC)},
+		vocab.IRI(base + "?page=1&page=2"),
+		wrap,
+	}
+}
+
+func runHistoryOn(c *Ctx, ck colKind, start string, ops []colOp, pool []vocab.Item, poolName string) {
 	var model []int
 	var prefill vocab.ItemCollection
 	var earlier vocab.ItemCollection // an earlier snapshot sharing the backing array
@@ -227,6 +256,9 @@ func runHistory(c *Ctx, ck colKind, start string, ops []colOp) {
 		}
 	}
 	label := fmt.Sprintf("%s/%s/%s", ck.Name, start, opsString(ops))
+	if poolName != "" {
+		label += " over the " + poolName + " pool"
+	}
 	fail := func(step int, what, effect string, detail map[string]any) {
 		op := "init"
 		if step >= 0 {
@@ -415,7 +447,7 @@ func init() {
 	shrinkOrders := []string{"front", "back", "middle-out", "every-third-then-rest"}
 	Register(&Prop{
 		ID:   "C13",
-		Rule: fmt.Sprintf("model: a slice of pool indices with set semantics; pool of %d items with pairwise distinct ids (IRI, object, actor, activity, value and pointer forms); exhaustive layer: all %d histories of length <= %d over {Append, Remove} x pool, each run on a rotating collection kind x start state (empty, pre-filled, slice with spare capacity), and all histories of length <= 3 that also use a variadic Append naming a new item twice, on every kind x start; after EVERY step Collection() (sequence by id), Count() and Contains(p) for every pool member are compared with the model; random layer: histories of length 6-40 on every kind; big-pool layer: histories of 60-150 operations over a 40-item pool (collections grow to 40 members); grow-shrink layer: every kind grown to 65/70/129/150/300 members and removed down to nothing in four orders, then grown again; distinct = (kind, start, history); non-trivial = history with at least one effective Remove or a repeated Append", poolN, total, L),
+		Rule: fmt.Sprintf("model: a slice of pool indices with set semantics; pool of %d items with pairwise distinct ids (IRI, object, actor, activity, value and pointer forms); exhaustive layer: all %d histories of length <= %d over {Append, Remove} x pool, each run on a rotating collection kind x start state (empty, pre-filled, slice with spare capacity), and all histories of length <= 3 that also use a variadic Append naming a new item twice, on every kind x start; after EVERY step Collection() (sequence by id), Count() and Contains(p) for every pool member are compared with the model; random layer: histories of length 6-40 on every kind; big-pool layer: histories of 60-150 operations over a 40-item pool (collections grow to 40 members); near-ids layers: all histories of length <= 3 (rotating kind and start) and random ones over a second pool whose ids are distinct but close (the same path without a query, with one parameter, with one more, with a repeated parameter, on another port) and whose members hold links with ids of their own in their lists; grow-shrink layer: every kind grown to 65/70/129/150/300 members and removed down to nothing in four orders, then grown again; distinct = (kind, start, history); non-trivial = history with at least one effective Remove or a repeated Append", poolN, total, L),
 		Layers: func(tier string) []Layer {
 			return []Layer{
 				{Name: "histories<=4", N: total, Exhaustive: true, Run: func(c *Ctx, idx int) {
@@ -442,6 +474,26 @@ func init() {
 					ops := decodeM(idx / (len(colKinds) * len(starts)))
 					c.Distinct(ck.Name+"/"+st+"/"+opsString(ops), true)
 					runHistory(c, ck, st, ops)
+				}},
+				{Name: "near-ids<=3", N: nM + nM*nM + nM*nM*nM, Exhaustive: true, Run: func(c *Ctx, idx int) {
+					ck := colKinds[idx%len(colKinds)]
+					st := starts[(idx/len(colKinds))%len(starts)]
+					ops := decodeM(idx)
+					c.Distinct("near/"+ck.Name+"/"+st+"/"+opsString(ops), true)
+					c.Count("near-id-histories", 1)
+					runHistoryOn(c, ck, st, ops, nearPool(), "near-ids")
+				}},
+				{Name: "near-ids-random", N: tierN(tier, 4000, 100000), Run: func(c *Ctx, idx int) {
+					ck := colKinds[c.R.Intn(len(colKinds))]
+					st := starts[c.R.Intn(len(starts))]
+					n := 4 + c.R.Intn(20)
+					ops := make([]colOp, n)
+					for i := range ops {
+						ops[i] = colOp{"AARCM"[c.R.Intn(5)], c.R.Intn(poolN)}
+					}
+					c.Distinct("near/"+ck.Name+"/"+st+"/"+opsString(ops), true)
+					c.Count("near-id-histories", 1)
+					runHistoryOn(c, ck, st, ops, nearPool(), "near-ids")
 				}},
 				{Name: "grow-shrink", N: len(colKinds) * len(growSizes) * len(shrinkOrders), Exhaustive: true, Run: func(c *Ctx, idx int) {
 					// grow past the sizes at which slices re-allocate (65, 129, ...) and shrink back to nothing, compared after every step
@@ -519,7 +571,7 @@ func init() {
 			}
 		},
 		Floors: func(tier string) map[string]int64 {
-			return map[string]int64{"histories": 50000, "op:A": 50000, "op:R": 50000}
+			return map[string]int64{"histories": 50000, "op:A": 50000, "op:R": 50000, "near-id-histories": 10000}
 		},
 		Assumptions: []string{
 			"links are outside the pool (the quantifier lists IRI, object, actor, activity)",
